@@ -748,6 +748,22 @@ struct Run {
     }
     if (useDb && !anyRan && buildNo > 1 && !failing) nullBuilds++;
     // ---- what the next invocation starts from
+    if (failing) {
+      // an alias this invocation reached may have been recorded as skipped; statements *outside* the targets that depend on it
+      // meet the change later
+      std::set<std::string> reachedAliases, reached;
+      for (const Stmt* s : order) {
+        reached.insert(s->name);
+        if (s->phony) reachedAliases.insert(s->name);
+      }
+      for (auto& st : man.stmts) {
+        if (st.phony || reached.count(st.name) || !recs.count(st.name)) continue;
+        std::vector<const Stmt*> al;
+        effectiveInputs(st, &al);
+        for (auto* a : al)
+          if (reachedAliases.count(a->name) && recs[st.name].status == Rec::Ok) recs[st.name].status = Rec::Unknown;
+      }
+    }
     for (const Stmt* s : order) {
       if (s->phony) continue;
       bool fresh = false;
